@@ -1,17 +1,21 @@
 #!/bin/bash
 # usage: seedtest.sh <srcdir with patch.diff demo_test.go meta.json> <property> [check args]
-# 1. confirms the seeded change in a scratch worktree (demo fails with it, passes without, package tests pass)
-# 2. applies it to /repo, runs the property's quick check, reverts
+# MODE=confirm|check|both (default both)
+# confirm: in a scratch worktree of /repo's HEAD - the demo passes without the change, fails with it,
+#          and the package's existing tests pass with it
+# check:   the property's quick check is run against a scratch worktree with the change applied
+#          (GOSYM_REPO); /repo and /verif/evidence are not touched
 set -u
 SRC=$1; PROP=$2; shift 2
 export GOFLAGS=-mod=mod GOPROXY=off
 WT=/tmp/seedchk.$$
 MODE=${MODE:-both}
-if [ "$MODE" != check ]; then
 git -C /repo worktree add -q --detach $WT HEAD || exit 2
+trap 'cd /; git -C /repo worktree remove --force $WT 2>/dev/null; rm -rf /tmp/seedev.$$' EXIT
 PKG=$(python3 -c "import json;print(json.load(open('$SRC/meta.json'))['demo_package_dir'])")
 cd $WT
-if ! git apply --check $SRC/patch.diff 2>/dev/null; then echo "SEED patch does not apply to current HEAD"; git -C /repo worktree remove --force $WT; exit 2; fi
+if ! git apply --check $SRC/patch.diff 2>/dev/null; then echo "SEED patch does not apply to current HEAD"; exit 2; fi
+if [ "$MODE" != check ]; then
 cp $SRC/demo_test.go $WT/$PKG/zz_seed_demo_test.go
 echo "== demo WITHOUT change (must pass)"; (cd $WT && timeout 600 go test -count=1 -vet=off -run "Seed|Demo|TestC[0-9]" ./$PKG 2>&1 | tail -3)
 git apply $SRC/patch.diff
@@ -19,11 +23,9 @@ echo "== build"; (cd $WT && go build ./... 2>&1 | tail -3)
 echo "== demo WITH change (must fail)"; (cd $WT && timeout 600 go test -count=1 -vet=off -run "Seed|Demo|TestC[0-9]" ./$PKG 2>&1 | tail -4)
 rm $WT/$PKG/zz_seed_demo_test.go
 echo "== existing tests of $PKG with change (must pass)"; (cd $WT && timeout 900 go test -count=1 -vet=off ./$PKG 2>&1 | tail -2)
-cd /; git -C /repo worktree remove --force $WT
+else
+git apply $SRC/patch.diff
 fi
 if [ "$MODE" = confirm ]; then exit 0; fi
-echo "== my check on /repo with the change applied"
-git -C /repo apply $SRC/patch.diff || exit 2
-(cd /verif && timeout 1800 ./bin/gosym check "$@" $PROP quick 2>&1 | cut -c1-400 | head -20; echo "check exit=${PIPESTATUS[0]}")
-git -C /repo checkout -- .
-git -C /repo status --short | head -3
+echo "== my check against the worktree with the change applied"
+(cd /verif && GOSYM_REPO=$WT GOSYM_EVIDENCE=/tmp/seedev.$$ timeout 1800 ./bin/gosym check "$@" $PROP quick 2>&1 | cut -c1-400 | head -20; echo "check exit=${PIPESTATUS[0]}")
